@@ -452,7 +452,7 @@ func (v *Verifier) execReturn(s *State, x *ast.ReturnStmt) []*Flow {
 	if s.dead {
 		return nil
 	}
-	return []*Flow{{St: s, Kind: flowReturn, Ret: rets}}
+	return []*Flow{{St: s, Kind: flowReturn, Ret: rets, Pos: x.Pos()}}
 }
 
 func (v *Verifier) curResults() []*types.Var {
